@@ -203,18 +203,24 @@ impl ProtocolRequestBuilder for crate::Request {
             vec![]
         };
 
+        // The header map iterates in hash order, which differs from run to run.
+        // Emit headers sorted by name (the values of one name keep their order)
+        // so that the same request always produces the same effect.
+        let mut headers: Vec<HttpHeader> = self
+            .iter()
+            .flat_map(|(name, values)| {
+                values.iter().map(|value| HttpHeader {
+                    name: name.to_string(),
+                    value: value.to_string(),
+                })
+            })
+            .collect();
+        headers.sort_by(|a, b| a.name.cmp(&b.name));
+
         Ok(HttpRequest {
             method: self.method().to_string(),
             url: self.url().to_string(),
-            headers: self
-                .iter()
-                .flat_map(|(name, values)| {
-                    values.iter().map(|value| HttpHeader {
-                        name: name.to_string(),
-                        value: value.to_string(),
-                    })
-                })
-                .collect(),
+            headers,
             body,
         })
     }
